@@ -65,7 +65,8 @@ def run(ctx):
     import scipy.spatial.distance as SD
     rng = ctx.rng
     names = [n for n in D.named_distances if n not in D.DISCRETE_METRICS]
-    ctx.rule = ("for every name in named_distances (discrete excepted; aliases included): random pairs of kinds {continuous, integer, binary, "
+    ctx.rule = ("near-duplicate arguments (relative difference 1e-9 .. 1e-5) against the definition in extended precision for poincare, euclidean, hellinger, cosine, correlation; " +
+                "for every name in named_distances (discrete excepted; aliases included): random pairs of kinds {continuous, integer, binary, "
                 "zeros-in-one, all-zero, identical, sparse}, dims 1..64, all parameters; binary metrics exhaustively on {0,1}^d x {0,1}^d, "
                 "d<=5 (quick d<=4 + sampled d=5); implementation vs Lean model, vs an independent float64 textbook definition and SciPy "
                 "where defined; symmetry, non-negativity, identity, bounds, argument purity; non-trivial = pair neither all-zero nor identical")
@@ -140,6 +141,50 @@ def run(ctx):
                 ctx.violation("scipy", f"{name} = {v}, SciPy = {ref}", {"metric": name, "x": x.tolist(), "y": y.tolist()},
                               key=f"C12:{name}:scipy")
             ctx.case(key="scipy" + name + str(t), nontrivial=True, part="scipy")
+
+    # near-duplicate arguments (two measurements of the same sample): the definition in extended precision; formulas that are
+    # algebraically equal to the definition but subtract large squared norms lose everything here
+    for name in ("poincare", "euclidean", "hellinger", "cosine", "correlation"):
+        f = D.named_distances[name]
+        for t in range(40 if ctx.thorough else 12):
+            d = int(rng.choice([2, 3, 8, 32]))
+            u = rng.normal(size=d)
+            if name == "poincare":
+                u = u / (1 + np.linalg.norm(u)) * float(rng.choice([0.5, 0.9, 0.99]))
+            if name in ("hellinger",):
+                u = np.abs(u) + 0.1
+            rel = float(rng.choice([1e-9, 1e-7, 1e-5]))
+            v = u * (1 + rel * rng.normal(size=d))
+            if name == "poincare" and not (np.dot(v, v) < 1):
+                continue
+            uL, vL = u.astype(np.longdouble), v.astype(np.longdouble)
+            if name == "poincare":
+                eps_ = 2 * np.sum((uL - vL) ** 2) / ((1 - np.sum(uL * uL)) * (1 - np.sum(vL * vL)))
+                ref = float(np.sqrt(2 * eps_) * (1 - eps_ / 12))            # arccosh(1 + e) = sqrt(2e) (1 - e/12 + ...)
+                tol = 3e-8 + 1e-3 * ref
+            elif name == "euclidean":
+                ref = float(np.sqrt(np.sum((uL - vL) ** 2)))
+                tol = 1e-9 * ref + 1e-300
+            elif name == "hellinger":
+                ref = float(np.sqrt(max(0, 1 - np.sum(np.sqrt(uL * vL)) / np.sqrt(np.sum(uL) * np.sum(vL)))))
+                tol = 3e-8 + 1e-3 * ref
+            elif name == "cosine":
+                ref = float(1 - np.sum(uL * vL) / np.sqrt(np.sum(uL * uL) * np.sum(vL * vL)))
+                tol = 1e-15 + 1e-3 * abs(ref)
+            else:
+                a_, b_ = uL - uL.mean(), vL - vL.mean()
+                ref = float(1 - np.sum(a_ * b_) / np.sqrt(np.sum(a_ * a_) * np.sum(b_ * b_)))
+                tol = 1e-15 + 1e-3 * abs(ref)
+            try:
+                got = float(f(u.copy(), v.copy()))
+            except Exception as e:  # noqa
+                ctx.violation("exception", f"{name} raised {type(e).__name__}: {e} on near-duplicate arguments", {"metric": name, "x": u.tolist(), "y": v.tolist()},
+                              key=f"C12:{name}:exception")
+                continue
+            if not np.isfinite(got) or got < (-1e-12 if name in ("cosine", "correlation") else 0.0) or abs(got - ref) > tol:   # 1 - ratio: one ulp of 1
+                ctx.violation("definition", f"{name} of near-duplicate arguments (relative difference {rel}) = {got}, definition in extended precision = {ref}",
+                              {"metric": name, "x": u.tolist(), "y": v.tolist()}, key=f"C12:{name}:near-duplicates")
+            ctx.case(key="neardup" + name + str(u.tolist()), nontrivial=True, part="near-duplicates", metric=name)
 
     # pairwise driver used by fit for the special metrics
     for name in ["hellinger", "ll_dirichlet", "symmetric_kl", "poincare"] + (["euclidean"] if ctx.thorough else []):
